@@ -258,6 +258,37 @@ def wrap_exact(ctx: Ctx, chk) -> None:
             else:
                 chk.refute(rule, f"{key}::wrap-count::{cnt}", f"the handler chain of command {cell[1]} (protocol {V}) contains the version-query wrapper {cnt} times: {'no version query follows these messages' if cnt == 0 else 'several queries per message'}", cal.chain()[-1].func.where, version=V)
     chk.floor(rule, "command cells", n, 25)
+    # nothing refuses a message before the version wrapper's try is entered: along the chain, every definition that
+    # runs before (outside) the wrapper hands over to the next one before it can raise by itself - a rejection raised
+    # outside the wrapper (a guard hoisted into an outer decorator) is not followed by the version query
+    seen_outer = set()
+    for V in ctx.versions:
+        for cell, cal in cells[V].items():
+            if cell[0] != "cmd" or cal is None:
+                continue
+            chain = tables.chain_defs(ctx, cal, V)
+            if w not in chain:
+                continue
+            for f in chain[: chain.index(w)]:
+                if f in seen_outer:
+                    continue
+                seen_outer.add(f)
+                chk.instance(rule)
+                fi = ctx.inl(f, lambda h: not h.name.startswith("handle_"))
+                g = CFG(fi.node)
+                wrapped_params = ctx.I.wrapped_param_names(f)
+                deleg = [x for x in ctx.own_nodes(fi) if isinstance(x, ast.Call) and ((isinstance(x.func, ast.Attribute) and isinstance(x.func.value, ast.Call) and norm(x.func.value.func) == "super") or (isinstance(x.func, ast.Name) and x.func.id in wrapped_params))]
+                dnodes = g.nodes_where(lambda x: any(x.contains(c) for c in deleg))
+                early = None
+                for r in [x for x in g.nodes if x.kind == "stmt" and isinstance(x.ast, ast.Raise) and x.ast.exc is not None and not (isinstance(x.ast.exc, ast.Name) and not norm(x.ast.exc)[:1].isupper())]:
+                    if not any(g.dominates(d, r) for d in dnodes):
+                        early = r
+                        break
+                key = f"{f.fq}::outside-the-version-wrapper"
+                if early is None:
+                    chk.ok(rule, key, "hands over to the wrapped handler before it can refuse the message itself", f.where, sample=False)
+                else:
+                    chk.refute(rule, key, f"{f.qualname} runs outside the version-query wrapper and can refuse a message by itself (`{norm(early.ast)[:60]}`) before the wrapped handler - and with it the wrapper's try/finally - is entered: while the version is unknown such a message is not followed by a version query", ctx.loc(fi, early.ast))
     # finally discipline
     chk.instance(rule)
     tries = [t for t in ctx.own_nodes(w) if isinstance(t, ast.Try)]
